@@ -13,6 +13,9 @@ CHECKS = {
 }
 CHECKS.update({
  # NEW-ENTRIES-HERE
+ "C06": (True, "fault_enumeration", "exhaustive single-field mutation, truncation and byte-replacement enumeration plus all short byte strings, on five reading entry points, in isolated workers with an allocation meter and a watchdog",
+         "For every reading entry point (Codec.Read and Codec.Skip of ~50 codecs, ReadFile, SchemaFromString followed by Schema.Codec and a decode, timestamp text) three input families are enumerated completely: every byte string up to a length bound, every single-field mutation (20 boundary values) / truncation / byte replacement of every valid encoding, file, schema document and timestamp of a base family, and named structural cases. Each call must return without panic, without killing or stalling the worker, and with heap allocation (runtime/metrics) within 1 MiB + 1024 x input length. ~9.5 million distinct inputs in the quick tier.",
+         "Loose linear allocation bound; watchdog-based non-termination; zero-size-item floods outside the claim except for the recorded known finding.", "DESIGN.md §4 C06"),
  "C05": (True, "exploration", "exhaustive schema-type x Go-kind x position matrix with canary/guard memory around every destination, isolated workers",
          "The complete matrix of 24 schema nodes x 55 Go types x 4 positions (8 thorough) is enumerated: an unsound pair (per a soundness table written from the documented mapping) must be refused when the decoder is built; for every pair that builds, every in-range and out-of-range datum is decoded into a destination surrounded by canary fields, guard array elements and canary-patterned spare slice capacity, which must stay byte-identical, and the field must hold the reference value. The matrix is finite, so it is covered completely; worker isolation turns memory faults into attributed violations.",
          "Corruption beyond the guards that does not crash is unobserved; sound pairs the library refuses are not judged.", "DESIGN.md §4 C05"),
